@@ -1,0 +1,60 @@
+// SPDX-FileCopyrightText: 2020 - 2025 SAP SE
+//
+// SPDX-License-Identifier: Apache-2.0
+
+//go:build verif
+
+package tds
+
+import (
+	"context"
+	"fmt"
+	"io"
+	"sync"
+)
+
+// NewConnWithTransport is NewConn without the dial: the passed transport
+// is used as the connection. Only available with the build tag verif;
+// used by the verification harness to script read partitions and
+// transport failures deterministically.
+//
+// If startReader is false the reader goroutine is not started and the
+// caller is expected to feed packets through Channel.WritePacket.
+func NewConnWithTransport(ctx context.Context, rwc io.ReadWriteCloser, info *Info, startReader bool) (*Conn, error) {
+	tds := &Conn{
+		info:       info,
+		conn:       rwc,
+		packetSize: 512,
+	}
+
+	if err := tds.setCapabilities(); err != nil {
+		return nil, fmt.Errorf("error setting capabilities on connection: %w", err)
+	}
+
+	tds.odce = aes_256_cbc
+
+	tds.ctx, tds.ctxCancel = context.WithCancel(ctx)
+	tds.tdsChannelCurFreeId = uint32(0)
+	tds.tdsChannels = make(map[int]*Channel)
+	tds.tdsChannelsLock = &sync.RWMutex{}
+	tds.errCh = make(chan error, 10)
+
+	if startReader {
+		go tds.ReadFrom()
+	}
+
+	return tds, nil
+}
+
+// VerifPacketDataLens returns the length of the data slice of every
+// queued packet.
+func (queue *PacketQueue) VerifPacketDataLens() []int {
+	queue.Lock()
+	defer queue.Unlock()
+
+	lens := make([]int, len(queue.queue))
+	for i, packet := range queue.queue {
+		lens[i] = len(packet.Data)
+	}
+	return lens
+}
